@@ -38,7 +38,7 @@ from ..cfg import CFG, fmt_path
 from ..poly import Rat, C, mk_atom, restrict, gamma_conds, fn
 from ..vg import Evaluator, vkey, atoms_of, Const
 from ..dataflow import names_in, local_defs
-from .common import calls_to, site, key, stmt_of, enclosing, kwarg
+from .common import calls_to, site, key, stmt_of, enclosing, kwarg, iter_value, resolved
 
 NW = 'gnpy.core.network'
 EXPLANATION = (
@@ -365,12 +365,8 @@ def r5_order(ctx):
     # each loop ranges over all elements of its kind, lists read from the graph; the inline-amp list is re-read after the split
     for nm, kind in (('split_fiber', 'Fiber'), ('add_roadm_preamp', 'Roadm'), ('add_inline_amplifier', 'Fiber')):
         lp = enclosing(nodes[nm], ast.For)
-        it = lp.iter.id if isinstance(lp.iter, ast.Name) else None
-        defs = [s for s in walk_no_nested(f.node) if isinstance(s, ast.Assign) and isinstance(s.targets[0], ast.Name) and s.targets[0].id == it
-                and s.lineno < lp.lineno]
-        d = max(defs, key=lambda s_: s_.lineno) if defs else None
-        ok = d is not None and 'network.nodes()' in ast.unparse(d.value) and f'elements.{kind}' in ast.unparse(d.value) and \
-            isinstance(d.value, ast.ListComp)
+        val, d = iter_value(f.node, lp)
+        ok = 'network.nodes()' in ast.unparse(val) and f'elements.{kind}' in ast.unparse(val) and isinstance(val, ast.ListComp)
         if nm == 'add_inline_amplifier':
             ok = ok and d.lineno > enclosing(nodes['split_fiber'], ast.For).end_lineno
         ctx.check('R5.order', f'{site(f, lp)} {nm} over all {kind}s', bool(ok), key(f, f'coverage|{nm}'),
@@ -533,12 +529,11 @@ def r9_fibre_lists(ctx):
     for callee in ('split_fiber', 'add_inline_amplifier'):
         cs = calls_to(f, {callee})
         lp = enclosing(cs[0], ast.For) if len(cs) == 1 else None
-        ok = lp is not None and isinstance(lp.iter, ast.Name)
+        ok = lp is not None
         det = ''
         if ok:
-            # the definition of the list that reaches this loop (the closest one above it)
-            ds = [x for x in f.node.body if isinstance(x, ast.Assign) and ast.unparse(x.targets[0]) == lp.iter.id and x.lineno < lp.lineno]
-            comp = ds[-1].value if ds else None
+            # the list that reaches this loop (the closest definition above it, or the loop header itself)
+            comp, _ = iter_value(f.node, lp)
             ok = isinstance(comp, ast.ListComp) and len(comp.generators) == 1 and len(comp.generators[0].ifs) == 1 and \
                 ast.unparse(comp.generators[0].iter) == f'{f.params[0]}.nodes()' and ast.unparse(comp.elt) == ast.unparse(comp.generators[0].target)
             if ok:
@@ -586,10 +581,10 @@ def r10_defaults_and_kind(ctx):
     for fname, (helper, side) in want.items():
         g = repo.func(NW, fname)
         cs = calls_to(g, {'check_oms_single_type'})
-        ok = len(cs) == 1 and isinstance(cs[0].args[0], ast.Name)
+        ok = len(cs) == 1
         if ok:
-            src = [s.value for s in walk_no_nested(g.node) if isinstance(s, ast.Assign) and ast.unparse(s.targets[0]) == cs[0].args[0].id]
-            ok = len(src) == 1 and isinstance(src[0], ast.Call) and getattr(src[0].func, 'id', '') == helper and isinstance(src[0].args[0], ast.Name)
+            src = [resolved(local_defs(g.node), cs[0].args[0])]
+            ok = isinstance(src[0], ast.Call) and getattr(src[0].func, 'id', '') == helper and isinstance(src[0].args[0], ast.Name)
             if ok:
                 a0 = src[0].args[0].id
                 meth = 'successors' if side == 'next' else 'predecessors'
